@@ -136,7 +136,8 @@ def main(ctx):
         ctx.expect_vacuity("class " + need, ctx.classes.get(need, 0))
     # T ---------------------------------------------------------------------------------------
     trace = ctx.path("trace.ndjson")
-    ctx.harness(["record", "C04", "--out", trace, "--n", 2000 if thorough else 400], timeout=900)
+    ctx.harness(["record", "C04", "--out", trace, "--n", 2000 if thorough else 400,
+                 "--opt", "pushback=%d" % (900000 if thorough else 150000)], timeout=900)
     events, rejects = ctx.trace_validate("WriterTrace", "WriterTrace.cfg", trace)
     for r in rejects:
         ev = events[r["l"] - 1]
